@@ -12,6 +12,7 @@ package main
 
 import (
 	"fmt"
+	"sort"
 	"go/ast"
 	"go/constant"
 	"go/token"
@@ -29,16 +30,107 @@ type ciView struct {
 
 func (v ciView) len() int { return v.hi - v.lo }
 
+type ciLin struct {
+	t map[string]int
+	k int
+}
+
+func (l ciLin) String() string {
+	var names []string
+	for n, c := range l.t {
+		if c != 0 {
+			names = append(names, n)
+		}
+	}
+	sort.Strings(names)
+	out := ""
+	for _, n := range names {
+		c := l.t[n]
+		switch {
+		case c == 1:
+			out += "+" + n
+		case c == -1:
+			out += "-" + n
+		case c > 0:
+			out += fmt.Sprintf("+%d*%s", c, n)
+		default:
+			out += fmt.Sprintf("%d*%s", c, n)
+		}
+	}
+	if l.k != 0 || out == "" {
+		out += fmt.Sprintf("%+d", l.k)
+	}
+	return strings.TrimPrefix(out, "+")
+}
+
+func ciAtom(n string) ciLin { return ciLin{t: map[string]int{n: 1}} }
+
+func (l ciLin) add(o ciLin, sign int) ciLin {
+	r := ciLin{t: map[string]int{}, k: l.k + sign*o.k}
+	for n, c := range l.t {
+		r.t[n] += c
+	}
+	for n, c := range o.t {
+		r.t[n] += sign * c
+	}
+	return r
+}
+
+// ciParseLin reads a token produced by ciLin.String (or a plain atom).
+func ciParseLin(tok string) (ciLin, bool) {
+	if strings.HasPrefix(tok, "#") {
+		n, err := strconv.Atoi(tok[1:])
+		return ciLin{t: map[string]int{}, k: n}, err == nil
+	}
+	r := ciLin{t: map[string]int{}}
+	i := 0
+	for i < len(tok) {
+		sign := 1
+		if tok[i] == '+' {
+			i++
+		} else if tok[i] == '-' {
+			sign = -1
+			i++
+		}
+		j := i
+		for j < len(tok) && tok[j] != '+' && tok[j] != '-' {
+			j++
+		}
+		term := tok[i:j]
+		if term == "" {
+			return r, false
+		}
+		coef := 1
+		if k := strings.Index(term, "*"); k >= 0 {
+			c, err := strconv.Atoi(term[:k])
+			if err != nil {
+				return r, false
+			}
+			coef, term = c, term[k+1:]
+		}
+		if n, err := strconv.Atoi(term); err == nil {
+			r.k += sign * coef * n
+		} else {
+			r.t[term] += sign * coef
+		}
+		i = j
+	}
+	return r, true
+}
+
 type ciState struct {
 	ints     map[string]int
 	sl       map[string]ciView
+	flo      map[string]ciLin
+	bools    map[string]bool
 	failed   bool // the clause returned an error
 	returned bool
 }
 
 type ciInterp struct {
-	info  *types.Info
-	funcs map[string]*ast.FuncDecl
+	info     *types.Info
+	funcs    map[string]*ast.FuncDecl
+	closures map[string]*ast.FuncLit
 	st    *ciState
 	err   string
 	steps int
@@ -121,6 +213,9 @@ func (in *ciInterp) viewE(e ast.Expr) (ciView, bool) {
 			return ciView{}, true
 		}
 		v, ok := in.st.sl[x.Name]
+		return v, ok
+	case *ast.SelectorExpr:
+		v, ok := in.st.sl[types.ExprString(x)]
 		return v, ok
 	case *ast.SliceExpr:
 		v, ok := in.viewE(x.X)
@@ -223,14 +318,105 @@ func (in *ciInterp) elemE(e ast.Expr) (string, bool) {
 		if id, ok := x.Fun.(*ast.Ident); ok && id.Name == "float64" && len(x.Args) == 1 {
 			return in.elemE(x.Args[0])
 		}
+	case *ast.Ident, *ast.BinaryExpr, *ast.SelectorExpr:
+		if in.isFloatExpr(e) {
+			if l, ok := in.floatE(e); ok {
+				return l.String(), true
+			}
+		}
 	}
 	return "", false
+}
+
+func (in *ciInterp) typeOf(e ast.Expr) types.Type {
+	if tv, ok := in.info.Types[e]; ok && tv.Type != nil {
+		return tv.Type
+	}
+	if id, ok := e.(*ast.Ident); ok {
+		if o := in.info.ObjectOf(id); o != nil {
+			return o.Type()
+		}
+	}
+	return nil
+}
+
+func (in *ciInterp) isFloatExpr(e ast.Expr) bool {
+	t := in.typeOf(e)
+	if t == nil {
+		return false
+	}
+	b, isB := t.Underlying().(*types.Basic)
+	return isB && b.Info()&types.IsFloat != 0
+}
+
+// floatE evaluates a floating-point expression to a linear form over the
+// symbolic operands (sums and differences only).
+func (in *ciInterp) floatE(e ast.Expr) (ciLin, bool) {
+	if tv, ok := in.info.Types[e]; ok && tv.Value != nil {
+		f, _ := constant.Float64Val(constant.ToFloat(tv.Value))
+		if f == float64(int(f)) {
+			return ciLin{t: map[string]int{}, k: int(f)}, true
+		}
+		return ciLin{}, false
+	}
+	switch x := e.(type) {
+	case *ast.ParenExpr:
+		return in.floatE(x.X)
+	case *ast.Ident:
+		if l, ok := in.st.flo[x.Name]; ok {
+			return l, true
+		}
+		return ciLin{}, false
+	case *ast.SelectorExpr:
+		name := types.ExprString(x)
+		if l, ok := in.st.flo[name]; ok {
+			return l, true
+		}
+		return ciAtom(name), true // a quantity of the environment
+	case *ast.IndexExpr:
+		t, ok := in.elemE(x)
+		if !ok {
+			return ciLin{}, false
+		}
+		return ciParseLin(t)
+	case *ast.UnaryExpr:
+		if x.Op == token.SUB {
+			l, ok := in.floatE(x.X)
+			return ciLin{t: map[string]int{}}.add(l, -1), ok
+		}
+	case *ast.BinaryExpr:
+		a, ok1 := in.floatE(x.X)
+		b, ok2 := in.floatE(x.Y)
+		if !ok1 || !ok2 {
+			return ciLin{}, false
+		}
+		switch x.Op {
+		case token.ADD:
+			return a.add(b, 1), true
+		case token.SUB:
+			return a.add(b, -1), true
+		}
+	case *ast.CallExpr:
+		if id, ok := x.Fun.(*ast.Ident); ok && (id.Name == "float64" || id.Name == "fix") && len(x.Args) == 1 {
+			return in.floatE(x.Args[0])
+		}
+	}
+	return ciLin{}, false
 }
 
 func (in *ciInterp) boolE(e ast.Expr) (bool, bool) {
 	switch x := e.(type) {
 	case *ast.ParenExpr:
 		return in.boolE(x.X)
+	case *ast.Ident:
+		switch x.Name {
+		case "true":
+			return true, true
+		case "false":
+			return false, true
+		}
+		v, ok := in.st.bools[x.Name]
+		return v, ok
 	case *ast.UnaryExpr:
 		if x.Op == token.NOT {
 			v, ok := in.boolE(x.X)
@@ -287,20 +473,20 @@ func (in *ciInterp) boolE(e ast.Expr) (bool, bool) {
 }
 
 func (in *ciInterp) isSliceExpr(e ast.Expr) bool {
-	tv, ok := in.info.Types[e]
-	if !ok || tv.Type == nil {
+	t := in.typeOf(e)
+	if t == nil {
 		return false
 	}
-	_, isSl := tv.Type.Underlying().(*types.Slice)
+	_, isSl := t.Underlying().(*types.Slice)
 	return isSl
 }
 
 func (in *ciInterp) isIntExpr(e ast.Expr) bool {
-	tv, ok := in.info.Types[e]
-	if !ok || tv.Type == nil {
+	t := in.typeOf(e)
+	if t == nil {
 		return false
 	}
-	b, isB := tv.Type.Underlying().(*types.Basic)
+	b, isB := t.Underlying().(*types.Basic)
 	return isB && b.Info()&types.IsInteger != 0
 }
 
@@ -320,15 +506,49 @@ func (in *ciInterp) assign1(lhs, rhs ast.Expr, tok token.Token) {
 		v.a.el[v.lo+i] = t
 		return
 	}
-	id, ok := lhs.(*ast.Ident)
-	if !ok {
+	var id *ast.Ident
+	switch l := lhs.(type) {
+	case *ast.Ident:
+		id = l
+	case *ast.SelectorExpr:
+		id = &ast.Ident{Name: types.ExprString(l)}
+	default:
 		in.fail("assignment to %s not understood", types.ExprString(lhs))
 		return
 	}
 	if id.Name == "_" {
 		return
 	}
-	if in.isSliceExpr(rhs) || (tok != token.DEFINE && in.isSliceExpr(lhs)) {
+	if in.isFloatExpr(rhs) || in.isFloatExpr(lhs) {
+		l, ok := in.floatE(rhs)
+		if !ok {
+			in.fail("floating-point value %s not understood", types.ExprString(rhs))
+			return
+		}
+		switch tok {
+		case token.ASSIGN, token.DEFINE:
+			in.st.flo[id.Name] = l
+		case token.ADD_ASSIGN:
+			in.st.flo[id.Name] = in.st.flo[id.Name].add(l, 1)
+		case token.SUB_ASSIGN:
+			in.st.flo[id.Name] = in.st.flo[id.Name].add(l, -1)
+		default:
+			in.fail("assignment operator %s not understood", tok)
+		}
+		return
+	}
+	if tv, ok := in.info.Types[rhs]; ok && tv.Type != nil {
+		if b, isB := tv.Type.Underlying().(*types.Basic); isB && b.Info()&types.IsBoolean != 0 {
+			v, ok := in.boolE(rhs)
+			if !ok {
+				in.fail("boolean value %s not understood", types.ExprString(rhs))
+				return
+			}
+			in.st.bools[id.Name] = v
+			return
+		}
+	}
+	if in.isSliceExpr(rhs) || (tok != token.DEFINE && in.isSliceExpr(lhs)) || in.isSliceExpr(lhs) {
 		v, ok := in.viewE(rhs)
 		if !ok {
 			in.fail("slice value %s not understood", types.ExprString(rhs))
@@ -433,6 +653,8 @@ func (in *ciInterp) stmt(s ast.Stmt) {
 					in.assign1(nm, vs.Values[i], token.DEFINE)
 				} else if in.isSliceExpr(nm) {
 					in.st.sl[nm.Name] = ciView{}
+				} else if in.isFloatExpr(nm) {
+					in.st.flo[nm.Name] = ciLin{t: map[string]int{}}
 				} else {
 					in.st.ints[nm.Name] = 0
 				}
@@ -530,6 +752,10 @@ func (in *ciInterp) stmt(s ast.Stmt) {
 			}
 			return
 		}
+		if fl := in.closures[id.Name]; fl != nil {
+			in.callClosure(fl, call.Args)
+			return
+		}
 		fd := in.funcs[id.Name]
 		if fd == nil {
 			in.fail("call of %s not understood", id.Name)
@@ -554,7 +780,7 @@ func (in *ciInterp) call(fd *ast.FuncDecl, args []ast.Expr) {
 		return
 	}
 	// bind parameters (slices by reference to the same array, integers by value)
-	callee := &ciState{ints: map[string]int{}, sl: map[string]ciView{}}
+	callee := &ciState{ints: map[string]int{}, sl: map[string]ciView{}, flo: map[string]ciLin{}, bools: map[string]bool{}}
 	i := 0
 	for _, f := range fd.Type.Params.List {
 		for _, nm := range f.Names {
@@ -591,7 +817,7 @@ func (in *ciInterp) call(fd *ast.FuncDecl, args []ast.Expr) {
 // runCase interprets one case clause on the given stack and storage.
 func ciRunCase(info *types.Info, funcs map[string]*ast.FuncDecl, cc *ast.CaseClause, stack []string, storage []string) (out []string, store []string, failed bool, err string) {
 	in := &ciInterp{info: info, funcs: funcs}
-	in.st = &ciState{ints: map[string]int{}, sl: map[string]ciView{}}
+	in.st = &ciState{ints: map[string]int{}, sl: map[string]ciView{}, flo: map[string]ciLin{}, bools: map[string]bool{}}
 	a := &ciArr{el: append(append([]string{}, stack...), make([]string, 8)...)}
 	in.st.sl["stack"] = ciView{a: a, lo: 0, hi: len(stack)}
 	if storage != nil {
@@ -792,4 +1018,204 @@ func checkStackCtl(w *World, r *Report) {
 		return ""
 	})
 	r.Floor("stackctl", 4)
+}
+
+// callClosure runs a function literal of the enclosing function: it shares
+// the caller's variables; only its parameters are bound afresh.
+func (in *ciInterp) callClosure(fl *ast.FuncLit, args []ast.Expr) {
+	if in.depth > 3 {
+		in.fail("call depth")
+		return
+	}
+	type saved struct {
+		name string
+		kind int
+		i    int
+		b    bool
+		has  bool
+	}
+	var save []saved
+	i := 0
+	for _, f := range fl.Type.Params.List {
+		for _, nm := range f.Names {
+			if i >= len(args) {
+				in.fail("argument count")
+				return
+			}
+			if b, ok := in.boolE(args[i]); ok && !in.isIntExpr(args[i]) {
+				old, has := in.st.bools[nm.Name]
+				save = append(save, saved{name: nm.Name, kind: 1, b: old, has: has})
+				in.st.bools[nm.Name] = b
+			} else if n, ok := in.intE(args[i]); ok {
+				old, has := in.st.ints[nm.Name]
+				save = append(save, saved{name: nm.Name, kind: 0, i: old, has: has})
+				in.st.ints[nm.Name] = n
+			} else {
+				in.fail("argument %s of a closure not understood", types.ExprString(args[i]))
+				return
+			}
+			i++
+		}
+	}
+	in.depth++
+	in.block(fl.Body.List)
+	in.depth--
+	in.st.returned = false
+	for _, sv := range save {
+		switch sv.kind {
+		case 0:
+			if sv.has {
+				in.st.ints[sv.name] = sv.i
+			} else {
+				delete(in.st.ints, sv.name)
+			}
+		case 1:
+			if sv.has {
+				in.st.bools[sv.name] = sv.b
+			} else {
+				delete(in.st.bools, sv.name)
+			}
+		}
+	}
+}
+
+// ciRun interprets a case clause with a prepared state and returns the
+// interpreter (for inspection of the final state).
+func ciRun(info *types.Info, funcs map[string]*ast.FuncDecl, closures map[string]*ast.FuncLit, cc *ast.CaseClause, init func(st *ciState)) (*ciInterp, string) {
+	in := &ciInterp{info: info, funcs: funcs, closures: closures}
+	in.st = &ciState{ints: map[string]int{}, sl: map[string]ciView{}, flo: map[string]ciLin{}, bools: map[string]bool{}}
+	init(in.st)
+	in.block(cc.Body)
+	return in, in.err
+}
+
+func ciSlice(tokens []string, spare int) ciView {
+	a := &ciArr{el: append(append([]string{}, tokens...), make([]string, spare)...)}
+	return ciView{a: a, lo: 0, hi: len(tokens)}
+}
+
+func (v ciView) tokens() []string {
+	if v.a == nil {
+		return nil
+	}
+	return append([]string{}, v.a.el[v.lo:v.hi]...)
+}
+
+// checkStemSem: hstem, vstem, hstemhm, vstemhm.  "y dy {dya dyb}*": the
+// first edge of every operator is relative to 0, every further value to the
+// previous edge (TN5177 4.3) — whatever stems earlier operators declared.
+func checkStemSem(w *World, r *Report) {
+	r.Rule("stemsem: the case clauses of hstem, vstem, hstemhm and vstemhm are interpreted with 2..7 symbolic operands (an odd count carries the width first) and with stems of an earlier operator already recorded: the edges appended are the running sums s0, s0+s1, s0+s1+s2, ... of this operator's operands alone, in that order, to the list of the right direction; the other list, and what was recorded before, is untouched; the stack is empty afterwards")
+	pkg := w.All[modPath+"/cff"]
+	if pkg == nil {
+		r.Fatal("package cff not loaded")
+		return
+	}
+	info := pkg.TypesInfo
+	funcs := map[string]*ast.FuncDecl{}
+	var dec *ast.FuncDecl
+	for _, f := range pkg.Syntax {
+		for _, d := range f.Decls {
+			if fd, ok := d.(*ast.FuncDecl); ok && fd.Body != nil {
+				if fd.Recv == nil {
+					funcs[fd.Name.Name] = fd
+				}
+				if fd.Name.Name == "decodeCharString" {
+					dec = fd
+				}
+			}
+		}
+	}
+	if dec == nil {
+		r.Fatal("decodeCharString not found")
+		return
+	}
+	closures := map[string]*ast.FuncLit{}
+	for _, st := range dec.Body.List {
+		as, ok := st.(*ast.AssignStmt)
+		if !ok || len(as.Lhs) != 1 || len(as.Rhs) != 1 {
+			continue
+		}
+		if fl, ok := as.Rhs[0].(*ast.FuncLit); ok {
+			if id, ok := as.Lhs[0].(*ast.Ident); ok {
+				closures[id.Name] = fl
+			}
+		}
+	}
+	clauses := map[string]*ast.CaseClause{}
+	ast.Inspect(dec.Body, func(n ast.Node) bool {
+		if cc, ok := n.(*ast.CaseClause); ok {
+			for _, e := range cc.List {
+				clauses[types.ExprString(e)] = cc
+			}
+		}
+		return true
+	})
+	// the stem lists: slice fields of the result that the clauses append to
+	for _, op := range []string{"t2hstem", "t2vstem", "t2hstemhm", "t2vstemhm"} {
+		key := r.MkKey("stemsem", "decodeCharString", "operator "+strings.TrimPrefix(op, "t2"))
+		cc := clauses[op]
+		if cc == nil {
+			r.Fail("stemsem", key, w.Pos(dec.Pos()), "no case for "+op, nil)
+			continue
+		}
+		own, other := "res.HStem", "res.VStem"
+		if strings.HasPrefix(op, "t2v") {
+			own, other = other, own
+		}
+		bad := ""
+		for n := 2; n <= 7 && bad == ""; n++ {
+			var stack []string
+			for i := 0; i < n; i++ {
+				stack = append(stack, fmt.Sprintf("s%d", i))
+			}
+			in, err := ciRun(info, funcs, closures, cc, func(st *ciState) {
+				st.sl["stack"] = ciSlice(stack, 4)
+				st.sl["res.HStem"] = ciSlice([]string{"h0", "h1"}, 0)
+				st.sl["res.VStem"] = ciSlice([]string{"v0", "v1"}, 0)
+				st.bools["widthIsSet"] = false
+				st.ints["stage"] = 0
+			})
+			if err != "" {
+				bad = err
+				break
+			}
+			if in.st.failed {
+				bad = fmt.Sprintf("%d operands are rejected", n)
+				break
+			}
+			wd := n % 2
+			prior := map[string][]string{"res.HStem": {"h0", "h1"}, "res.VStem": {"v0", "v1"}}
+			want := append([]string{}, prior[own]...)
+			sum := ciLin{t: map[string]int{}}
+			for i := wd; i < n; i++ {
+				sum = sum.add(ciAtom(fmt.Sprintf("s%d", i)), 1)
+				want = append(want, sum.String())
+			}
+			got := in.st.sl[own].tokens()
+			if strings.Join(got, " ") != strings.Join(want, " ") {
+				bad = fmt.Sprintf("with %d operands after an earlier stem operator the edges recorded are [%s], defined are [%s] (each operator starts at 0)", n, strings.Join(got, " "), strings.Join(want, " "))
+				break
+			}
+			if o := in.st.sl[other].tokens(); strings.Join(o, " ") != strings.Join(prior[other], " ") {
+				bad = fmt.Sprintf("the list of the other direction is changed to [%s]", strings.Join(o, " "))
+				break
+			}
+			if rest := in.st.sl["stack"].tokens(); len(rest) != 0 {
+				bad = fmt.Sprintf("the stack still holds %v afterwards", rest)
+				break
+			}
+			if wd == 1 {
+				if wv, ok := in.st.flo["res.Width"]; !ok || wv.t["s0"] != 1 {
+					bad = "with an odd operand count the first operand is not taken as the width"
+				}
+			}
+		}
+		if bad == "" {
+			r.OK("stemsem", key, w.Pos(cc.Pos()), "edges are the running sums of the operator's own operands")
+		} else {
+			r.Fail("stemsem", key, w.Pos(cc.Pos()), strings.TrimPrefix(op, "t2")+": "+bad, nil)
+		}
+	}
+	r.Floor("stemsem", 4)
 }
